@@ -141,7 +141,12 @@ impl Prop for C17 {
         }
         let comma = rng.chance(1, 3);
         let prompt = if rng.coin() { Some(*rng.pick(&["NAME", "a b", "é", ""])) } else { None };
-        let mut stmt = String::from("INPUT ");
+        // a DEFtype setting for the variables' first letters changes nothing: every target has its own suffix
+        let mut stmt = if rng.chance(1, 4) {
+            format!("{}:INPUT ", rng.pick(&["DEFSTR V-W", "DEFSTR A-Z", "DEFINT V-W", "DEFDBL V", "DEFSNG W:DEFSTR V"]))
+        } else {
+            String::from("INPUT ")
+        };
         if comma {
             stmt.push(',');
         }
